@@ -1,4 +1,5 @@
 import Mp4ff.Lemmas.C13Seq
+import Mp4ff.Expect.Transcribed
 /-!
 # C13 — bit, Exp-Golomb and emulation-prevention coding are exact inverses
 
@@ -125,5 +126,10 @@ example : ∀ op ∈ [Op.fld 8 0, Op.fld 8 0, Op.fld 8 1, Op.ue 70000, Op.se (-3
   simp [Op.OK]
 
 example : esc 0 [0, 0, 0, 0, 1, 0, 0, 3] = [0, 0, 3, 0, 0, 3, 1, 0, 0, 3, 3] := by decide
+
+/-- the Go functions the models of this property transcribe (committed table `spec/transcribed.json`, checked against
+    the current source by the extractor on every run) all still exist -/
+theorem model_sources_exist :
+    (["Bits.lean"] : List String).all Mp4ff.Expect.presentFor = true := by decide +kernel
 
 end Mp4ff.Bits.C13
